@@ -1,8 +1,13 @@
 package cluster
 
+import "github.com/tikv/pd/server/replication"
+
 // VerifSetRunning marks the cluster as running without starting background workers (harness helper, overlay only).
 func VerifSetRunning(c *RaftCluster, running bool) {
 	c.Lock()
 	c.running = running
 	c.Unlock()
 }
+
+// VerifSetReplicationMode installs a replication mode manager (Start normally does this).
+func VerifSetReplicationMode(c *RaftCluster, m *replication.ModeManager) { c.replicationMode = m }
